@@ -79,8 +79,7 @@ contract("parglare.tables.create_table",
              "haskey(actions, terminal)",
              # free cell: the reduction is entered
              "implies(not had(), len(L1()) == 1 and L1()[0] == new_reduce)",
-             # an occupied cell keeps its list object; nothing foreign enters it
-             "implies(had(), actions[terminal] == old(actions[terminal]))",
+             # nothing foreign enters an occupied cell (whether the cell keeps its list object is not specified)
              "implies(had(), forall(0, len(L1()), lambda j: L1()[j] == new_reduce or "
              "exists(0, n0(), lambda k: L1()[j] == e0(k))))",
              # SHIFT/REDUCE: the shift stays unless the reduction beats it
